@@ -212,7 +212,9 @@ def effective_case(case):
 
 
 def c01_case():
-  return st.tuples(L.case_strategy(), filter_strategy(),
+  return st.tuples(L.case_strategy(allow=('counter', 'stat', 'sow', 'perturb',
+                                          'tanh', 'shared', 'nested')),
+                   filter_strategy(),
                    st.sampled_from(['dict', 'frozen', 'mixed', 'mixed']),
                    st.booleans(), st.integers(1, 3))
 
@@ -451,7 +453,7 @@ def immutable_writes(case, ctx):
 @clause('observation_inert',
         strategy=lambda: st.tuples(
             L.case_strategy(allow=('counter', 'stat', 'sow', 'perturb', 'tanh',
-                                   'shared')),
+                                   'shared', 'nested')),
             st.sampled_from(['none', 'true', 'fn']), filter_strategy()),
         quick=400, thorough=20000, quick_shards=4,
         rule='paired runs: a program with sow/perturb ops and capture_'
